@@ -94,7 +94,39 @@ static void run_drift(const Case& c) {
     print_data("out", out->getData(), static_cast<size_t>(n) * n * nb);
 }
 
+// coeffsweep <id> <it> <lo> <hi> <stride> : all binary32 f with bit patterns lo..hi (step stride),
+// checks |sum w - 1| <= 4u*sum|w| in double and unit vector at f == 0; prints counts
+#include <thread>
+#include <atomic>
+struct ProbeCoeff : public KickMap { using KickMap::KickMap; static void c(float* ic, float f, uint_fast8_t it) { calcCoefficiants(ic, f, it); } };
+static void run_coeffsweep(const Case& c) {
+    uint32_t it = std::stoul(c.head[2]);
+    uint64_t lo = std::stoull(c.head[3]), hi = std::stoull(c.head[4]), stride = std::stoull(c.head[5]);
+    const int T = 16;
+    std::vector<uint64_t> bad(T, 0), cnt(T, 0), firstbad(T, UINT64_MAX);
+    std::vector<double> worst(T, 0);
+    std::vector<std::thread> th;
+    for (int t = 0; t < T; t++) th.emplace_back([&, t]() {
+        for (uint64_t b = lo + static_cast<uint64_t>(t) * stride; b <= hi; b += stride * T) {
+            float f = u2f(static_cast<uint32_t>(b));
+            float ic[4] = {0, 0, 0, 0};
+            ProbeCoeff::c(ic, f, static_cast<uint_fast8_t>(it));
+            double s = 0, a = 0;
+            for (uint32_t k = 0; k < it; k++) { s += ic[k]; a += std::fabs(ic[k]); }
+            double dev = std::fabs(s - 1.0) / (a * 5.9604644775390625e-08);
+            if (dev > worst[t]) worst[t] = dev;
+            cnt[t]++;
+            if (!(dev <= 4.0)) { bad[t]++; if (b < firstbad[t]) firstbad[t] = b; }
+        }
+    });
+    for (auto& x : th) x.join();
+    uint64_t B = 0, N = 0, F = UINT64_MAX; double W = 0;
+    for (int t = 0; t < T; t++) { B += bad[t]; N += cnt[t]; F = std::min(F, firstbad[t]); W = std::max(W, worst[t]); }
+    std::cout << "case " << c.id << "\n" << "ints " << N << ' ' << B << ' ' << (B ? F : 0) << ' ' << static_cast<uint64_t>(W * 1000) << '\n';
+}
+
 static bool dispatch_more(const Case& c) {
+    if (c.kind == "coeffsweep") { run_coeffsweep(c); return true; }
     if (c.kind == "rf") { run_rf(c); return true; }
     if (c.kind == "drift") { run_drift(c); return true; }
     if (c.kind == "ident") { run_ident(c); return true; }
